@@ -6,6 +6,7 @@ Unix → Windows, for sources none of whose names contains a Windows separator (
 is the known finding K4), and Windows → Unix for sources that do not start like a prefix.
 -/
 import TypedPathVerif.Props.C16d
+import TypedPathVerif.Props.C16c
 import TypedPathVerif.Props.C17
 
 namespace TP.C16e
@@ -118,6 +119,72 @@ theorem conv_checked_w2u_valid (b r : Bytes)
       have : y ≠ SLASH := by intro hE; rw [hE] at hnosep; revert hnosep; decide
       simp [C16d.tsep, usep, this]
     obtain ⟨e, he⟩ := C16d.conv_checked_fails_forbidden .windows .unix b hne s y hs hy hf hns
+    rw [he] at h; cases h
+
+/-- **Windows → Unix, checked, with a complete non-verbatim prefix.**  When the conversion succeeds
+the result is the unchecked one — prefix dropped, rooted unless the prefix was a disk — and is a
+valid Unix path. -/
+theorem conv_checked_w2u_prefixed_valid (b r rest : Bytes) (p : PrefixComp)
+    (h : withEncodingChecked .windows .unix b = .ok r)
+    (hp : parsePrefixComp b = some (p, rest)) (hc : Win.Complete p.kind)
+    (hnv : JoinRules.isVerbatimKind p.kind = false) :
+    r = withEncoding .windows .unix b ∧
+    (∃ T, comps .windows b = .pfx p :: T ∧
+      comps .unix r = (match p.kind with
+        | .disk _ => T
+        | _ => if T.head? = some .root then T else .root :: T)) ∧
+    isValid .unix r = true := by
+  have hr := C16d.conv_checked_ok_eq_unchecked .windows .unix b r h
+  have hne : Enc.windows ≠ Enc.unix := by decide
+  obtain ⟨T, hT, hconv⟩ := C16c.conv_w2u_prefixed b rest p hp hc hnv
+  have hs := Win.stable_of_complete hp hc
+  have hn := Win.normOf_nonverbatim hp hc hnv
+  have hok := Win.restOK_of_complete hp hc
+  have hcb : comps .windows b = .pfx p :: compsT false true (toks (wsep true) rest) := by
+    rw [← parsePrefixComp_raw hp, Win.comps_of_stable hs rest hok, hn]; rfl
+  have hTeq : T = compsT false true (toks (wsep true) rest) := by
+    rw [hT] at hcb; exact (List.cons.inj hcb).2
+  rw [hr]
+  refine ⟨rfl, ⟨T, hT, hconv⟩, ?_⟩
+  apply isValid_of_names
+  intro s hs y hy
+  -- every name of the result is a name of the source, after the prefix
+  have hsT : Comp.normal s ∈ T := by
+    rw [hconv] at hs
+    cases hk : p.kind <;> rw [hk] at hs <;> simp only at hs
+    all_goals first
+      | exact hs
+      | (split at hs
+         · exact hs
+         · rcases List.mem_cons.mp hs with h1 | h1
+           · cases h1
+           · exact h1)
+  have hsb : Comp.normal s ∈ comps .windows b := by rw [hT]; simp [hsT]
+  cases hf : (forbidden .unix).contains y with
+  | false => rfl
+  | true =>
+    exfalso
+    have hnosep : anySep y = false := by
+      rw [hTeq] at hsT
+      rcases C16.compsT_structure (wsep true) rest with h0 | ⟨c, rest', h0, hc', hrest⟩
+      · rw [h0] at hsT; cases hsT
+      · rw [h0] at hsT
+        have hname : C16.nameOKs (wsep true) s := by
+          rcases List.mem_cons.mp hsT with h1 | h1
+          · rcases hc' with hc' | hc' | hc'
+            · rw [hc'] at h1; cases h1
+            · rw [hc'] at h1; cases h1
+            · rcases hc' with hc' | ⟨s', hc', hn'⟩
+              · rw [hc'] at h1; cases h1
+              · rw [hc'] at h1; cases h1; exact hn'
+          · rcases hrest _ h1 with hc' | ⟨s', hc', hn'⟩
+            · cases hc'
+            · cases hc'; exact hn'
+        exact hname.2.1 y hy
+    have hns : C16d.tsep .unix y = false := by
+      have : y ≠ SLASH := by intro hE; rw [hE] at hnosep; revert hnosep; decide
+      simp [C16d.tsep, usep, this]
+    obtain ⟨e, he⟩ := C16d.conv_checked_fails_forbidden .windows .unix b hne s y hsb hy hf hns
     rw [he] at h; cases h
 
 /-! ### non-vacuity: `b.t` converts, checked, to a valid Windows path -/
